@@ -306,7 +306,7 @@ impl Prop for C03 {
     }
 
     fn cases(tier: Tier) -> u64 {
-        tier.pick(60_000, 800_000)
+        tier.pick(60_000, 2_000_000)
     }
 
     fn enumerate(_tier: Tier) -> Vec<Case> {
